@@ -45,6 +45,11 @@ def check_for_migration(datastore: AbstractStorage):
                 scratch_path = os.path.join(scratch_dir, os.path.basename(legacy_path))
                 if os.path.isfile(legacy_path):
                     shutil.copyfile(legacy_path, scratch_path)
+                    # A database is its file and its journal (writes not yet folded back into
+                    # the file live in "-wal", an interrupted transaction in "-journal")
+                    for suffix in ("-wal", "-journal"):
+                        if os.path.isfile(legacy_path + suffix):
+                            shutil.copyfile(legacy_path + suffix, scratch_path + suffix)
                     peewee_v2_to_sqlite_v1(datastore, scratch_path)
                 else:
                     peewee_v2_to_sqlite_v1(datastore)
